@@ -105,7 +105,7 @@ def shaped_cases(tier):
             stmts.append(A.scan(A.string(subj), (re_.replace("\\\\", "\\"), [A.node(A.var("g")), A.attrn(A.var("g"), A.attr("g0", A.rcap(0)), A.attr("g1", A.rcap(1)), A.attr("g2", A.rcap(2)))])))
         if r.random() < 0.4:
             # arms anchored at the start of what is left: they miss first and match in a later round
-            a1, a2, subj = r.choice([("^a", "b", "ba"), ("^[a-z]+", "_", "__init__"), ("\\bfoo", "\\W", "-foo foo"), ("^x", "[^x]", "yyxx")])
+            a1, a2, subj = r.choice([("^a", "b", "ba"), ("^[a-z]+", "_", "__init__"), ("\\bfoo", "\\W", "-foo foo"), ("^x", "[^x]", "yyxx"), ("[a-z]+", "\\b", "ab"), ("[a-z]", "\\b", "ab cd")])
             a1, a2 = a1.replace("\\\\", "\\"), a2.replace("\\\\", "\\")
             stmts.append(A.scan(A.string(subj), (a1, [A.node(A.var("h1")), A.attrn(A.var("h1"), A.attr("anch", A.rcap(0)))]),
                                 (a2, [A.node(A.var("h2")), A.attrn(A.var("h2"), A.attr("other", A.rcap(0)))])))
@@ -143,6 +143,28 @@ def unused_cases(tier):
     return cases
 
 
+def rejected_or_agree_cases():
+    """files that break the locality rules of the checker: they are rejected at load time (and then not judged); were they accepted,
+    strict and lazy would have to agree all the same"""
+    import astgen as A
+    v, c, i = A.var, A.cap, A.integer
+    flags = A.stanza("(module (_) @ch) ", [A.let(A.svar(c("ch"), "flag"), A.true())])
+    loop1 = A.stanza("(module (_)* @stmts) @_m ", [A.mut(v("seen"), A.false()), A.forin("s", c("stmts"), [A.iff(([A.cond("bool", v("seen"))], [A.node(v("k"))])),
+                                                                                                   A.assign(v("seen"), A.svar(v("s"), "flag"))])])
+    loop2 = A.stanza("(module (_)* @stmts) @_m ", [A.mut(v("txt"), A.string("ab")), A.forin("s", c("stmts"), [A.scan(v("txt"), ("a", [A.node(v("k"))])),
+                                                                                                   A.assign(v("txt"), A.svar(v("s"), "name"))])])
+    names = A.stanza("(module (_) @ch) ", [A.let(A.svar(c("ch"), "name"), A.call("node-type", c("ch")))])
+    loop3 = A.stanza("(module (_)* @stmts) @_m ", [A.mut(v("lst"), A.lst(i(1))), A.forin("s", c("stmts"), [A.forin("e", v("lst"), [A.node(v("k"))]),
+                                                                                                A.assign(v("lst"), A.lst(A.svar(v("s"), "flag")))])])
+    cases = []
+    for k, st in enumerate([[flags, loop1], [loop1, flags], [names, loop2], [loop2, names], [flags, loop3]]):
+        for src in (2, 5, 7):
+            cases += A.both_modes("c02r-%d-%d" % (k, src), A.file(st), src)
+    # (one file that does load, so that the batch is never empty for the trace validation)
+    cases += A.both_modes("c02r-ok", A.file([A.stanza("(module) @_m ", [A.node(v("n"))])]), 1)
+    return cases
+
+
 def shorthand_cases(tier):
     import astgen as A
     r = A.rng(23)
@@ -175,6 +197,7 @@ def run(tier):
     run.add_cases("c02_scoped", c04.shaped_cases(tier, "c02c"))
     run.add_cases("c02_shorthands", shorthand_cases(tier))
     run.add_cases("c02_unused", unused_cases(tier))
+    run.add_cases("c02_rejected", rejected_or_agree_cases())
     # design level: TLC enumerates programs itself and checks StrictLazyAgree (with isomorphism decided inside TLA+) on the machines;
     # the enumerated programs are then replayed into the library (spec -> code)
     import mcexec
